@@ -25,6 +25,12 @@ class WalkerUnavailable(Exception):
     """The private attribute names the walker relies on are gone (refactor)."""
 
 
+class Cyclic(Exception):
+    """A live expression reaches itself through its children (or is absurdly deep).  Public
+    constructors can only build finite trees/DAGs, so this is definitive evidence that an existing
+    node was edited in place."""
+
+
 def num_key(v):
     if isinstance(v, bool):
         return ("b", int(v))
@@ -44,8 +50,14 @@ def num_of(key):
     raise ValueError(key)
 
 
-def tree_of(obj):
+def tree_of(obj, _path=None):
     """Structural spec of a live expression (identity-insensitive, side-effect free)."""
+    if _path is None:
+        _path = set()
+    key = id(obj)
+    if key in _path or len(_path) > 400:
+        raise Cyclic(f"{type(obj).__name__} node is its own descendant (or deeper than 400 levels)")
+    _path.add(key)
     cls = type(obj).__name__
     try:
         if cls == "Variable":
@@ -53,15 +65,17 @@ def tree_of(obj):
         if cls == "Constant":
             return ("Constant", num_key(obj.value))
         if cls in lib.NARY:
-            return (cls, tuple(tree_of(k) for k in obj._inners))
+            return (cls, tuple(tree_of(k, _path) for k in obj._inners))
         if cls in lib.BINARY:
-            return (cls, tree_of(obj._left), tree_of(obj._right))
+            return (cls, tree_of(obj._left, _path), tree_of(obj._right, _path))
         if cls in lib.UNARY:
-            return (cls, tree_of(obj._inner))
+            return (cls, tree_of(obj._inner, _path))
         if cls in lib.PARAM_N or cls in lib.PARAM_BASE:
-            return (cls, num_key(obj._parameter), tree_of(obj._inner))
+            return (cls, num_key(obj._parameter), tree_of(obj._inner, _path))
     except AttributeError as e:
         raise WalkerUnavailable(str(e))
+    finally:
+        _path.discard(key)
     raise WalkerUnavailable(f"unknown class {cls}")
 
 
@@ -98,7 +112,7 @@ def tree_vars(tree, acc=None):
     if op == "Variable":
         if tree[1] not in acc:
             acc.append(tree[1])
-    elif op == "Constant":
+    elif op in ("Constant", "Unwalkable"):
         pass
     elif op in lib.NARY:
         for k in tree[1]:
@@ -141,7 +155,10 @@ def table_of(obj):
     def visit(o):
         key = id(o)
         if key in index:
+            if index[key] is None:
+                raise Cyclic(f"{type(o).__name__} node is its own descendant")
             return index[key]
+        index[key] = None            # in progress
         cls = type(o).__name__
         try:
             if cls == "Variable":
@@ -194,6 +211,8 @@ def tree_str(tree):
     op = tree[0]
     if op == "Variable":
         return tree[1]
+    if op == "Unwalkable":
+        return f"<unwalkable {tree[1]}>"
     if op == "Constant":
         return repr(num_of(tree[1]))
     if op in lib.NARY:
